@@ -909,7 +909,25 @@ pub fn judge(inv: &mut Inv, prev_clean: Option<&BTreeSet<usize>>, prev_failed: &
                 }
                 stats.nontrivial.insert("C04");
             } else if e.contains("used generated file") {
-                stats.hazards += 1;
+                // legitimate only if some step really has a recorded or reported dependency on an output of a step
+                // that is not among its ordering ancestors (a project with a missing edge: not judged)
+                let x = e.split("used generated file ").nth(1).and_then(|r| r.split(", but has no").next()).unwrap_or("").to_string();
+                let producer = proj.steps.iter().find(|p| p.outs.iter().any(|o| refcanon(o) == x)).map(|p| p.uid);
+                let justified = match producer {
+                    None => false,
+                    Some(pu) => proj.steps.iter().any(|st| {
+                        let recorded = sh.attr.get(&st.uid).map(|r| r.deps.clone()).unwrap_or_default();
+                        let now = world.attributed(proj).get(&st.uid).map(|r| r.deps.clone()).unwrap_or_default();
+                        let inc = world.true_includes(st.uid);
+                        st.uid != pu && recorded.iter().chain(now.iter()).chain(inc.iter()).any(|d| refcanon(d) == x) && !proj.ancestors(st.uid).contains(&pu)
+                    }),
+                };
+                if justified || sh.regen_since_load || world.next.is_some() {
+                    stats.hazards += 1;
+                } else {
+                    push(&mut v, "C09", "spurious-generated-file-error", format!("error {:?}, but every step that depends on {:?} has a dependency path to its producer (a discovered dependency must never fail the build)", e, x));
+                    push(&mut v, "C06", "spurious-generated-file-error", format!("unexpected error: {}", e));
+                }
             } else {
                 push(&mut v, "C06", "unexpected-error", format!("unexpected error: {}", e));
                 // no edit of a history is allowed to make n2 give up: e.g. a vanished header must only make a step dirty
